@@ -396,6 +396,21 @@ pub fn check(prop: &str, tier: &str) -> i32 {
             for fd in &out.found {
                 rep.finding(fd);
             }
+            // run-length shapes: [base] MARK^a N^b MARK^c [GLOBAL] N^d with b, d up to 17 (65): thresholds in counts
+            let max_run = if tier == "quick" { 32 } else { 128 };
+            {
+                let t0 = std::time::Instant::now();
+                let out = crate::explore::runlength_shapes(&ex, max_run);
+                let l = format!("P{p}/none/runlength-shapes-max{max_run}");
+                if verbose {
+                    eprintln!("plan {l:<40} states={:>8} transitions={:>10} found={} {:.2}s", out.stats.states, out.stats.transitions, out.found.len(), t0.elapsed().as_secs_f64());
+                }
+                n_plans += 1;
+                rep.add_stats(&l, &out.stats);
+                for fd in &out.found {
+                    rep.finding(fd);
+                }
+            }
         }
     }
     // seed sweep (PRNG mode) through the same monitor — a labelled sweep, not exhaustive
